@@ -33,10 +33,10 @@ P = {
          "surviving non-blank lines byte-identical and in order, blank-line formula exact for every (b,a) in 0..4^2 x blank flavour x indent x neighbours x pending parent x final newline x second block (exhaustive), plus random block documents"),
  "C14": ("5 C14", "alignment monitor: k-th non-whitespace character of (input minus extents) is the k-th of the output, so every untouched stretch owns an exact output span that must equal the trimmed stretch",
          "every maximal untouched stretch (per line inside unwrapped bodies) appeared verbatim at its aligned place, on all documents of the C02/C03 workload incl. inline elements, shared lines, mutated and junk documents"),
- "C15": ("5 C15", "hook-based monitor: list (JSON + pretty) vs. the CleanMarkers event of clean on the same input vs. reference regions; purity by interleaved calls",
-         "Ready items == markers applied by clean (count, order, first/last line, highlighted text) == reference regions, list unchanged by interleaved clean / list_all calls, on all documents of the C15 space generated"),
- "C16": ("5 C16", "independent renderer + strict JSON structure check (serde_json) + pretty-vs-JSON comparison",
-         "JSON form valid with exactly the three keys; every annotated_code_block equal to the independent rendering (line numbers, tab expansion, marker columns for ASCII prefixes); pretty form with colours stripped == headers + JSON blocks"),
+ "C15": ("5 C15", "reference-region + hook monitor: list items and highlighted text vs. reference regions; byte union of the CleanMarkers event of clean vs. the same regions (and deleted length); purity by interleaved calls",
+         "Ready items == reference regions of the ready elements (count, order, first/last line, highlighted text), the bytes clean deletes before tidying == the union of those regions, list unchanged by interleaved clean / list_all calls, on all documents of the C15 space generated (block, inline, CRLF, bounded-exhaustive line sequences, configuration steps 0..4)"),
+ "C16": ("5 C16", "statement-derived item checker (source lines first..last, tabs expanded, one fixed-width number prefix, marker columns) + strict JSON structure check (serde_json) + pretty-vs-JSON agreement with all SGR codes stripped",
+         "JSON form valid with exactly the three keys; every annotated_code_block shows exactly its lines behind a fixed-width number prefix with tabs expanded and both markers in the right columns (ASCII prefixes), line_range == lines shown; code blocks occur in order in the colour-stripped pretty form; documents pushed down to line 100 000"),
  "C17": ("5 C17", "reference-region monitor over list_all JSON: (first line, last line, status) sequence vs. R-regions; Ready subsequence vs. list",
          "list_all == Ready regions + outstanding Pending regions in source order for all sibling strings over 8 sibling kinds up to the recorded length (exhaustive) and random documents with many pending elements"),
  "C18": ("5 C18", "relational (metamorphic) monitor: one AST rendered under two spellings, outputs compared after token-wise canonicalisation; renderings that trigger KF-C08 skipped and counted",
